@@ -143,6 +143,44 @@ func shutConfigs() []shutCfg {
 			w.closerAfterRun()
 		}
 	})
+	add("shutdown-from-ontraffic/registered-udp", false, func(w *world) {
+		// a connected UDP socket handed to Engine.Register: a datagram arrives on it and OnTraffic
+		// answers Shutdown (the poll_opt build serves such sockets through readUDP, the default build
+		// through the stream path)
+		w.onTraffic = func(w *world, ci *connInfo) Action {
+			_, _ = ci.c.Discard(-1)
+			return Shutdown
+		}
+		w.script = func(w *world) {
+			sched.Go("user", func() {
+				w.waitBoot()
+				sched.WaitIdle() // OnBoot runs before the event loops exist: let the start finish
+				port := udpPort() + 7
+				pfd, _, err := mcsys.PUDPSocket(false, port)
+				if err != nil {
+					w.violate("udp:harness", "udp socket: %v", err)
+					return
+				}
+				nc, err := net.DialUDP("udp4", nil, &net.UDPAddr{IP: net.IPv4(127, 0, 0, 1), Port: port})
+				if err != nil {
+					w.violate("udp:harness", "dial: %v", err)
+					return
+				}
+				la := nc.LocalAddr().(*net.UDPAddr)
+				ch, err := w.eng.Register(NewNetConnContext(context.Background(), nc))
+				if err != nil {
+					w.violate("ctl:Register", "Register(udp conn): %v", err)
+					return
+				}
+				sched.BlockUntil(func() bool { return len(w.conns) > 0 && w.conns[0].opens > 0 })
+				_ = ch
+				_ = mcsys.PSendto(pfd, []byte("dgram"), &unix.SockaddrInet4{Port: la.Port, Addr: [4]byte{127, 0, 0, 1}})
+				settle(nil)
+				sched.BlockUntil(func() bool { return w.runDone })
+				_ = mcsys.PClose(pfd)
+			})
+		}
+	})
 	add("shutdown-from-onclose/peer-close", false, func(w *world) {
 		w.onTraffic = func(w *world, ci *connInfo) Action { _, _ = ci.c.Discard(-1); return None }
 		w.onClose = func(w *world, ci *connInfo, err error) Action { return Shutdown }
